@@ -499,7 +499,7 @@ def real_readjson(c, tmp, idx):
     if "__exc__" in got:
         name = got["__exc__"].split(":")[0]
         return {"__err__": name[0].lower() + name[1:]}
-    return got["s"]
+    return got.get("s", {"__err__": "sheetMissing"})
 
 
 def gen_dict_table(rng: random.Random):
@@ -932,8 +932,8 @@ def typed_stream(ck: core.Check, tmp: str):
     p = os.path.join(tmp, "typed.xlsx")
     write_xlsx(p, sheets, {"skip_empty": True}, typed=True)
     got = read_sheets("xlsx", p)
-    if "__exc__" in got:
-        ck.notes.append("typed-cell side stream: XLSX reader raised " + got["__exc__"])
+    if "__exc__" in got or "typed" not in got:
+        ck.notes.append("typed-cell side stream: XLSX reader did not return the sheet: " + str(got)[:200])
         return
     row = got["typed"]["rows"][0]
     ck.extra["xlsx_typed_cells_read_as"] = {t: r for t, r in zip(typed, row)}
@@ -1089,9 +1089,10 @@ def run(ck: core.Check):
     need = ["split_over_two_inputs", "cell_newline", "cell_comma", "cell_quote", "cell_astral", "cell_empty", "cell_lead_eq_or_apostrophe", "compiled_ok",
             "sanitize:ok", "sanitize:allNoneHeaders", "sanitize:noHeaders", "readjson:invalidDimensions", "readjson:ok", "tojson:dup_headers"]
     missing = [k for k in need if not ck.strata.get(k)]
-    if missing:
+    clean = not ck.violations and not ck.tie_breaks      # never let the self-check mask a failure
+    if missing and clean:
         raise core.Infra("generator self-check: strata not reached: " + ", ".join(missing))
-    if ck.strata.get("compiled_ok", 0) < 0.8 * ck.strata.get("compile_workbooks", 1):
+    if clean and ck.strata.get("compiled_ok", 0) < 0.8 * ck.strata.get("compile_workbooks", 1):
         raise core.Infra("generator self-check: fewer than 80% of the compilable workbooks compile from CSV")
 
     if (ck.tie_breaks or not ck.lean.ok) and not ck.violations and quick:
